@@ -10,7 +10,7 @@ LEVEL = "proof"
 RULE = ("the systematic boundary lattice of harness/lattice.py: every single-field deviation (absent, null, "
         "bool, numbers around each bound, floats, empty/odd/blank/non-ASCII hex, lists, objects) of a valid "
         "request of each of the 10 commands in v5 and the 3 of v1, sampled pairwise deviations and "
-        "non-objects; non-trivial = any request that is not the unmodified base; distinct by request text")
+        "non-objects, one case in four with a reconnection pending from an earlier link error; non-trivial = any request that is not the unmodified base; distinct by request text")
 EXPLANATION = ("Theorems C02_* are about the Gallina gate and validators (classification is a function of the "
                "request alone; a rejected request produces no trace event); the model is compared with the "
                "implementation on every lattice point; the oracle spec_protocol.allowed is written from "
@@ -30,7 +30,8 @@ def oracle(case, obs):
         return None        # crashes on hostile values are C03's subject
     value = meta["value"]
     allowed = sp.allowed(case["mode"], value, meta.get("known_tx"))
-    napdu = len([e for e in obs["trace"] if e[0] == "A"])
+    # any contact counts: APDUs, but also closing / re-opening the link to repair a pending fault
+    napdu = len([e for e in obs["trace"] if e[0] in ("A", "C", "X")])
     code = j["errorcode"]
     C = sp.V5 if case["mode"] == "v5" else sp.V1
     if napdu > 0:
@@ -82,8 +83,11 @@ def gen_cases(rng, tier):
         known_tx = None
         if isinstance(req, dict) and isinstance(req.get("message"), dict):
             known_tx = BASE_TX.get(shape, "")
-        out.append({"mode": mode, "kind": "ledger", "lines": [line], "device": d,
-                    "meta": {"shape": shape, "value": value, "known_tx": known_tx}})
+        # one case in four arrives while a reconnection is pending (an earlier request hit a link error)
+        issue = rng.random() < 0.25
+        out.append({"mode": mode, "kind": "ledger", "lines": [line], "device": d, "issue": issue,
+                    "connects": [True] if issue else None,
+                    "meta": {"shape": shape, "value": value, "known_tx": known_tx, "issue": issue}})
     return out
 
 
